@@ -23,7 +23,7 @@ package art
 //@   ensures upperBound == "" && itValid(result) ==> curKey(result) == maxKeyOf(t) && minKeyOf(t) <= maxKeyOf(t)
 
 // (C08: also makes the arena's generic value log available in its instantiation for the ART)
-//@ func (*ART) Len
+//@ func (*ART) Dirty
 //@   prop C08
 //@   pure
-//@   ensures result == t.len
+//@   ensures result == t.dirty
